@@ -94,6 +94,7 @@ func init() {
 			"inlined), never accepts without the member's verdict, and re-attaches the discriminator to results; R-CONVSIB - the four native-to-wire converters share the " +
 			"CanConvert-guarded shape. R-DISCTYPE - every store under the discriminator key has the one-of's key type (what Validate asserts); R-CHILDREN - every loop over a container's data calls a data method of every child-schema field on every way round. NOT decided: value equality of round trips, idempotence, CBOR width normalisation, the treat-empty-as-default identification.",
 		Rules: []func(*Ctx){
+			func(c *Ctx) { c.ruleCodec("R-CODEC"); c.R.Floor("R-CODEC", 3) },
 			func(c *Ctx) { c.ruleStoreAll("R-STOREALL") },
 			func(c *Ctx) { c.ruleDiscPresent("R-DISCPRESENT"); c.R.Floor("R-DISCPRESENT", 2) },
 			func(c *Ctx) { c.ruleChildren("R-CHILDREN"); c.R.Floor("R-CHILDREN", 8) },
@@ -193,6 +194,7 @@ func init() {
 		Assumptions: []string{"callers that obtain the raw codec through the exported Encoder()/Decoder() accessors are outside the premise",
 			"the 60 s send time-out arm of sendRuntimeMessage (transport stall) is outside the premise"},
 		Rules: []func(*Ctx){
+			func(c *Ctx) { c.ruleCodec("R-CODEC"); c.R.Floor("R-CODEC", 3) },
 			func(c *Ctx) { c.rulePair("R-PAIR") },
 			func(c *Ctx) { c.ruleDecoderExclusive("R-DECODERX"); c.R.Floor("R-DECODERX", 3) },
 			func(c *Ctx) { c.ruleOneDecoder("R-ONEDECODER") },
